@@ -1,7 +1,7 @@
 ----------------------------- MODULE RugeStuben -----------------------------
 (* amgcl/coarsening/ruge_stuben.hpp, transcribed with the granularity of the code:   *)
 (*  connect   a_min = min(0, off-diagonals); a_min = 0 -> cf = 'F' and the row's     *)
-(*            slice of S.val is set to false (fix 5824225 in /repo; in the pinned    *)
+(*            slice of S.val is set to false (fix ffd7fe6 in /repo; in the pinned    *)
 (*            snapshot it was NOT written: Uninit = TRUE models recycled heap        *)
 (*            contents there, FALSE is the code as it is now);                       *)
 (*            else S.val[j] = (col # i /\ a_ij < eps * a_min); S' = transposition.   *)
